@@ -1,3 +1,28 @@
+#include <string.h>
+
 #include "rt.h"
-extern const harness_t h_mutex;
-const harness_t* const all_harnesses[] = {&h_mutex, 0};
+extern const harness_t h_mutex, h_yield, h_sem, h_rwlock, h_barrier, h_spin, h_cond, h_join, h_chan, h_msig, h_sleep, h_mchan;
+static const harness_t* const subs[] = {&h_mutex, &h_yield, &h_sem, &h_rwlock, &h_barrier, &h_spin, &h_cond, &h_join, &h_chan, &h_msig, &h_sleep, &h_mchan, 0};
+
+// "mixed": every sub-harness is active; ops are dispatched to whoever knows them
+static void mixed_setup(void) {
+  for (int i = 0; subs[i]; i++)
+    if (subs[i]->setup) subs[i]->setup();
+}
+static int mixed_do_op(int idx, op_t* op) {
+  for (int i = 0; subs[i]; i++)
+    if (subs[i]->do_op && subs[i]->do_op(idx, op)) return 1;
+  return 0;
+}
+static int mixed_at_quiescence(void) {
+  for (int i = 0; subs[i]; i++)
+    if (subs[i]->at_quiescence && subs[i]->at_quiescence()) return 1;
+  return 0;
+}
+static void mixed_final(void) {
+  for (int i = 0; subs[i]; i++)
+    if (subs[i]->final_check) subs[i]->final_check();
+}
+const harness_t h_mixed = {"mixed", mixed_setup, mixed_do_op, mixed_at_quiescence, mixed_final, 0};
+
+const harness_t* const all_harnesses[] = {&h_mutex, &h_yield, &h_sem, &h_rwlock, &h_barrier, &h_spin, &h_cond, &h_join, &h_chan, &h_msig, &h_sleep, &h_mchan, &h_mixed, 0};
